@@ -24,7 +24,8 @@ ASSUMPTIONS = [
     "oracle: exact de Casteljau / power-basis derivative; exact values for rational data, 1e-12 relative for floats",
     "point-on-curve: points certified farther than 1e-5*max(1, size) must not be `in`; points segment(t) of regular "
     "segments (control polygon strictly monotone along a direction: no cusp, loop or self-crossing) must be `in`",
-    "winding contribution compared with the continuous change of argument within 1e-9 for points certified >= 1e-6*size away",
+    "winding contribution compared with the continuous change of argument within 1e-9 for points at least 2.5e-6 (absolute) "
+    "from the segment, grazing points a few 1e-6 off the curve included",
     "a Fraction parameter of more than 1e5 bits reaching BezierCurve.eval is reported as 'does not return in practice' "
     "(exact Newton iteration without denominator cap) -- a logical resource bound, not a wall-clock one",
 ]
@@ -254,7 +255,16 @@ def judge_degree(case, rng, degree):
             m = ((ctrl[0][0] + ctrl[-1][0]) / 2, (ctrl[0][1] + ctrl[-1][1]) / 2)
             lam = Fr(rng.randint(1, 7), 8)
             c = (m[0] + lam * (p[0] - m[0]), m[1] + lam * (p[1] - m[1]))
-        if O.dist_point_curve((ctrl,), c, 1e-9 * size) < 1e-6 * size:
+        if rng.random() < 0.3 and len(ctrl) > 2:
+            # grazing: a few 1e-6 (absolute) off the curve, on either side, anywhere along it
+            t = Fr(rng.randint(1, 63), 64)
+            p = O.evaluate(ctrl, t)
+            d = O.evaluate(O.derivative_ctrl(ctrl, 1), t)
+            norm = math.hypot(float(d[0]), float(d[1]))
+            if norm > 0:
+                k = Fr(rng.choice([3e-6, 6e-6, 2e-5, 1e-4]) * rng.choice([-1, 1]) / norm)
+                c = (p[0] - d[1] * k, p[1] + d[0] * k)
+        if O.dist_point_curve((ctrl,), c, 1e-10) < 2.5e-6:
             continue
         try:
             want = O.subtended_angle(ctrl, c) / math.tau
